@@ -405,7 +405,15 @@ def build(tier="quick", seed=0):
 
     # ---- 4a. a definition that arrives WITHOUT a field list (fields = nil / null): its name text must still be a type name - it is never taken for the
     #          deprecated one-string definition form ("name\ntype field") and parsed
-    for entry in ("stream", "json"):
+    def entry_avro_doc_text(name_text, fields_v):
+        # an Avro schema whose documentation text is the JSON document [<name text>, null] (the field list is missing)
+        import json as _json
+
+        avro = L.import_module("flow.record.adapter.avro")
+        return it.call(avro.g["schema_to_descriptor"], [{"type": "record", "name": "x", "namespace": "", "fields": [], "doc": _json.dumps([name_text, None])}], {})
+
+    ENTRIES["avro_doc_text"] = entry_avro_doc_text
+    for entry in ("stream", "json", "avro_doc_text"):
         for label, name_text in (("a type name followed by lines of 'type field'", "c06/y\nstring a\nvarint b"), ("a plain valid type name", "c06/y"), ("a name with a trailing definition line", "c06/y\nos.system a")):
             name = f"C06.nofields[{entry}, {label}]"
 
@@ -416,7 +424,7 @@ def build(tier="quick", seed=0):
                     return "rejected", e.cls_name
                 return "accepted", it.getattr_(d, "name") if isinstance(d, PObj) else repr(d)
 
-            pack.add(Obligation(name, lambda tier, name=name, th=th, name_text=name_text: prove_paths(name, th, lambda p, name_text=name_text: (p.value[0] == "rejected" or (p.value[1] == name_text and "\n" not in name_text), f"a definition without a field list whose name text is {name_text!r} was accepted as the type {p.value[1]!r}")),
+            pack.add(Obligation(name, lambda tier, name=name, th=th, name_text=name_text: prove_paths(name, th, lambda p, name_text=name_text, entry=entry: (p.value[0] == "rejected" or (p.value[1] == name_text and "\n" not in name_text) or (entry == "avro_doc_text" and p.value[1] == "x"), f"a definition without a field list whose name text is {name_text!r} was accepted as the type {p.value[1]!r}")),
                                 replay=lambda w, entry=entry, name_text=name_text: {"call": "c06_nofields", "args": {"entry": entry, "name": name_text}}, functions=FU_GATE, mode="representative name texts"))
 
     # ---- 4b. what a reader has already accepted never lets a later definition in unchecked: crafted descriptor frames whose name and
